@@ -71,7 +71,18 @@ fn build(c: &Case, dir: &std::path::Path) -> Result<Dut, String> {
                     std::fs::write(dir.join("c.sigmf-data"), &bytes).map_err(|e| e.to_string())?;
                     dir.join("c.sigmf")
                 };
-                let (b, o) = SigMFSourceBuilder::<f32>::new(path).repeat(mk_repeat(c.repeat)).build().map_err(|e| e.to_string())?;
+                // The builder's setters may be called in any order; the recording carries no
+                // sample rate of its own, so forcing one changes nothing about the content.
+                let bld = SigMFSourceBuilder::<f32>::new(path);
+                let bld = match c.seed % 6 {
+                    0 => bld.repeat(mk_repeat(c.repeat)),
+                    1 => bld.sample_rate(48000.0).repeat(mk_repeat(c.repeat)),
+                    2 => bld.repeat(mk_repeat(c.repeat)).sample_rate(48000.0),
+                    3 => bld.repeat(mk_repeat(c.repeat)).ignore_type_error(),
+                    4 => bld.ignore_type_error().repeat(mk_repeat(c.repeat)).sample_rate(8000.0),
+                    _ => bld.sample_rate(1.0).ignore_type_error().repeat(mk_repeat(c.repeat)),
+                };
+                let (b, o) = bld.build().map_err(|e| e.to_string())?;
                 Ok(Dut { name: c.kind.clone(), params: json!({}), block: Box::new(b), ins: vec![], outs: vec![Box::new(CopyOut::new(o))], keeps_history: 0, cleanup: None })
             }
         }
